@@ -66,6 +66,15 @@ func helperMain() {
 		for _, w := range a {
 			fmt.Print(w + "\n")
 		}
+	case "lines8":
+		// the first word followed by a byte that is not UTF-8, the other words as lines
+		if len(a) < 1 {
+			helperUsage()
+		}
+		fmt.Print(a[0] + "\xff\n")
+		for _, w := range a[1:] {
+			fmt.Print(w + "\n")
+		}
 	case "print":
 		if len(a) != 1 {
 			helperUsage()
